@@ -13,8 +13,17 @@ The contract assumed of `concurrency.Mutex` (etcd client v3.5, `tryAcquire` / `w
   key per name (`pfx + lease id`): `Lock` creates it if absent and *re-uses* it otherwise;
 * `Lock` returns `nil` once no key with a smaller create revision exists (the session's key is
   the head of the queue);
-* `Lock` that fails (context deadline) deletes the session's key (`m.Unlock(client.Ctx())`);
-* `Unlock` deletes the session's key.
+* `Lock` that fails while waiting (context deadline) deletes the session's key
+  (`m.Unlock(client.Ctx())`); `Lock` whose *first* request fails returns the error without
+  deleting anything — the key exists if the request was applied and only its response was lost;
+* `Unlock` deletes the session's key (a no-op when there is none).
+
+`mutex.Lock` (with fixes/C18-stale-lock-key.patch) calls `m.m.Unlock` whenever `m.m.Lock`
+failed, so in every failure path the key is gone before the local mutex is released:
+`etcdTimeout` (key present: waited and timed out, or response of the first request lost, then
+cleanup) and `etcdErrorEarly` (first request failed without effect; the cleanup delete is a no-op).
+The unrepaired code lacks the cleanup in the lost-response case; `Props/C18.lean` shows the
+resulting stuck lock as a concrete witness (`old_code_leaves_stale_key`).
 
 Because the key is per *session*, two goroutines of one member are not excluded by etcd: the
 process-local `sync.Mutex` of the (single) mutex object does that.
@@ -53,6 +62,7 @@ inductive Act
   | etcdEnqueue (t : Nat)
   | etcdGranted (t : Nat)
   | etcdTimeout (t : Nat)
+  | etcdErrorEarly (t : Nat)
   | localUnlockFail (t : Nat)
   | critical (t : Nat)
   | etcdUnlock (t : Nat)
@@ -76,6 +86,10 @@ def step (c : Cfg) (s : State) : Act → Option State
     else none
   | .etcdTimeout t =>
     if s.pc t = .waiting then
+      some { s with pc := upd s.pc t .failing, queue := s.queue.erase (c.sess (c.obj t)) }
+    else none
+  | .etcdErrorEarly t =>
+    if s.pc t = .haveLocal then
       some { s with pc := upd s.pc t .failing, queue := s.queue.erase (c.sess (c.obj t)) }
     else none
   | .localUnlockFail t =>
